@@ -10,9 +10,14 @@
      op 5  safe_map_values fixed str   payload [data; ev]
      op 6  safe_map_indexed_values     payload [indices; values; ev] (ev = [] None, [bytes])
      op 7  map_valid numeric           payload [data]
-     op 8  map_valid fixed string      payload [data] *)
+     op 8  map_valid fixed string      payload [data]
+     op 9  history of calls on shared fields (Model/MapHistory.v)
+           payload [num; indices; values; steps]   steps = list of [code; cs; vf]
+           code 1 stream, 2 indexed stream, 3 map_valid, 4 safe_map_values, 5 safe_map_indexed_values,
+                6 stream with the map as its own source
+           answer: [[out...]; [map; num; indices; values]] (out = list, or [indices; values]) *)
 From Coq Require Import ZArith List Bool.
-From EV Require Import Res Arr Val MapStream MapStreamSpec.
+From EV Require Import Res Arr Val MapStream MapStreamSpec MapHistorySpec MapHistory.
 Import ListNotations.
 Open Scope Z_scope.
 
@@ -32,6 +37,21 @@ Definition as_optL04 (v:val) : option (option (list Z)) :=
   | VL [l] => match as_list l with Some x => Some (Some x) | None => None end
   | _ => None
   end.
+
+Definition step_of04 (l:list Z) : option hstep :=
+  match l with
+  | [1; cs; _] => Some (HStream cs)
+  | [2; cs; vf] => Some (HIStream cs vf)
+  | [3; _; _] => Some HMapValid
+  | [4; _; _] => Some HSafe
+  | [5; _; _] => Some HISafe
+  | [6; cs; _] => Some (HSelf cs)
+  | _ => None
+  end.
+Definition vout04 (o:hout) : val :=
+  match o with ONum l => vlist l | OIdx i v => VL [vlist i; vlist v] end.
+Definition vhstate04 (s:hstate) : val :=
+  VL [VL (map vout04 (h_out s)); VL [vlist (h_map s); vlist (h_num s); vlist (h_idx s); vlist (h_val s)]].
 
 Definition entry_C04 (v:val) : val :=
   match v with
@@ -85,6 +105,15 @@ Definition entry_C04 (v:val) : val :=
         match as_list2 d with
         | Some d => VL [of_res vlist2 (map_valid [] d m inv); vlist2 (map_spec [] d inv m)]
         | None => vbad end
+      | 9, [d; di; dv; st] =>
+        match as_list d, as_list di, as_list dv, as_list2 st with
+        | Some d, Some di, Some dv, Some st =>
+          match all_some (map step_of04 st) with
+          | Some steps =>
+            VL [of_res vhstate04 (run_history (c04_fuel m (d ++ di)) ver inv m d di dv steps);
+                vhstate04 (history_spec m d di dv inv steps)]
+          | None => vbad end
+        | _, _, _, _ => vbad end
       | _, _ => vbad
       end
     end
